@@ -176,15 +176,21 @@ def _c12():
     }
 
 
-EQ_TAGS = "unit true false number char byte symbol symbol_list char_list byte_list pair list concatenation".split()
+EQ_SCALAR = "unit true false number char byte symbol symbol_list char_list byte_list".split()
+EQ_STRUCT = [("pair", "pair"), ("list", "list"), ("list", "concatenation"), ("concatenation", "list"), ("concatenation", "concatenation"), ("pair", "list"), ("list", "number")]
 
 
 def _c11():
     hs = []
-    for t in EQ_TAGS:
-        tier = "quick" if t in ("number", "char", "char_list", "pair", "list", "concatenation", "unit", "symbol") else "thorough"
-        for neg in ("equal", "not_equal"):
-            hs.append(H("c11_%s_%s" % (neg, t), "rel", tier if neg == "equal" else "thorough" if tier == "thorough" or t in ("unit", "symbol", "char") else "quick", "%s with a left operand of type %s (symbolic contents; children shared with the right operand) and a right operand of symbolic type among the types C11 lists, or the left operand itself: result == the reference structural equality (numbers numerically, char/byte vs one-element list, pairs component-wise, lists and concatenations as flat item sequences), nothing left on the operand stack" % (neg, t)))
+    what = "result == the reference structural equality (numbers numerically, char/byte vs one-element list, pairs component-wise, lists and concatenations as flat item sequences), exactly one boolean left, registers below untouched"
+    for t in EQ_SCALAR:
+        q = t in ("number", "char", "char_list", "symbol", "unit")
+        hs.append(H("c11_equal_%s" % t, "rel", "quick" if q else "thorough", "Equal: left operand of type %s (symbolic contents), right operand of SYMBOLIC type among the types C11 lists, or the left operand itself: %s" % (t, what)))
+        hs.append(H("c11_not_equal_%s" % t, "rel", "quick" if t in ("number", "char_list") else "thorough", "NotEqual, same operands: the negation"))
+    for l, r in EQ_STRUCT:
+        q = (l, r) in (("pair", "pair"), ("list", "list"), ("list", "concatenation"))
+        hs.append(H("c11_equal_%s_vs_%s" % (l, r), "rel", "quick" if q else "thorough", "Equal: %s vs %s (or the same value twice), children symbolic and shared between the operands, lists of length 0..2: %s" % (l, r, what), timeout=1500))
+        hs.append(H("c11_not_equal_%s_vs_%s" % (l, r), "rel", "thorough", "NotEqual, same operands", timeout=1500))
     return {
         "claim": "Equal holds exactly when the reference structural equality (harness/src/bodies/relations.rs ref_eq, written from the property statement) holds, NotEqual is its negation, both leave exactly one boolean and the registers below untouched however early they decide. Reflexivity is covered by passing the same value twice, symmetry and transitivity follow from agreement with the (symmetric, transitive) reference on both operand orders.",
         "functions": ["runtime/src/runtime/equality.rs equal, not_equal, perform_equality_check, data_equal, compare_*, push_iterator_values, match_last_iter_values", "data/src/data/number.rs PartialEq for SimpleNumber", "runtime/src/execute.rs"],
